@@ -8,20 +8,27 @@
            well-formedness preservation and the frame lemmas over programs.
    Part 3: what each command does to the deadline of a key (keep / remove / set).
 
-   Adding a command family F (hashes, sets, ...) to [Exec.families]: the C06 theorems are about
-   [exec], i.e. about all of [families], so F must come with three facts, each proved per
-   executor by the tactics below ([sim_auto]/[sim_autol], [upd_auto], [keep_auto]; loops by
-   induction as for MSET/DEL/BLPOP) and collected per dispatch as for [sim_lists], [upd_lists],
-   [keep_lists]:
+   Adding a command family F (sets, streams, ...) to [Exec.families]: the C06 theorems are about
+   [exec], i.e. about all of [families], so F must come with three facts:
      family_sim  F_dispatch   (equivalent databases: same reply, equivalent results)
      family_upd  F_dispatch   (only keys among the arguments are written)
      family_keep F_dispatch   (no deadline is touched -- or the command joins [ttl_changers]
                                with its own lifecycle theorem)
-   and one more [Forall_cons] in [families_sim], [families_upd], [families_keep].  Executors that
-   read the database only through db_get/db_ttl and write it only through db_set/db_del/
-   db_set_ttl/db_del_ttl/purge need nothing else. *)
+   and one more [Forall_cons] line in each of [families_sim], [families_upd], [families_keep].
+   For a family whose executors (a) are selected by the usual [if is n (B "name") then Some (exec_x d
+   args ...)] chain, (b) read the database only through db_get/db_ttl and write it only through
+   db_set/db_del/db_set_ttl/db_del_ttl applied to keys that occur in [args], directly or through
+   non-recursive accessor definitions (get_hash, put_hash, ... -- add them to the hint database
+   [kv_access]), and (c) do not consult the database under a binder or inside a Fixpoint, the three
+   facts are one line each (see [sim_hashes]/[upd_hashes]/[keep_hashes]):
+       Proof. family_sim_tac F_dispatch. Qed.      (likewise family_upd_tac, family_keep_tac)
+   An executor that loops over keys (map/fold/Fixpoint reading db_get inside) needs its own lemma
+   by induction, as MGET/MSET/DEL/EXISTS/BLPOP have here; then prove the dispatch lemma as
+   [sim_lists]/[upd_lists]/[keep_lists] do (generic tactic first, named lemmas as fallback). *)
 Require Import Base.Bytes Base.GoInt Base.Reply Mem.Types Mem.Inv Glob.GlobModel.
-Require Import Mem.Strings Mem.Lists Mem.Exec.
+(* families whose files reuse names of Strings.v (ZSets: o_nx, o_xx) are imported before it *)
+Require Import Mem.HashDec Mem.Hashes Mem.Avl Mem.ZSets.
+Require Import Mem.Lists Mem.Strings Mem.Exec.
 From Coq Require Import Permutation.
 Local Open Scope Z_scope.
 
@@ -185,6 +192,19 @@ Ltac sim_leaf :=
                | apply eqv_put_list ].
 
 Ltac sim_auto := repeat (eqv_rw; break_match); sim_leaf.
+
+(* ---- generic proofs for a family whose executors reach the database only through
+        db_get/db_ttl/db_set/db_del/db_set_ttl/db_del_ttl, possibly via accessor definitions
+        listed in the hint database [kv_access] ---- *)
+Create HintDb kv_access.
+#[export] Hint Unfold get_list put_list : kv_access.
+#[export] Hint Unfold get_hash hash_or_empty put_hash hfloat_store hfloat_follow : kv_access.
+#[export] Hint Unfold get_zset put_zset : kv_access.
+
+Ltac head_of t := lazymatch t with ?f _ => head_of f | _ => t end.
+Ltac unfold_exec t :=
+  let h := head_of t in unfold h; cbv beta zeta; repeat autounfold with kv_access.
+
 
 Lemma eqv_set_apply_ttl a b now k o :
   db_eqv a b -> db_eqv (set_apply_ttl a now k o) (set_apply_ttl b now k o).
@@ -364,18 +384,174 @@ Proof.
   repeat (rewrite ?G; break_match); sim_leaf; try congruence.
 Qed.
 
-Lemma sim_bpop_scan l keys : forall a b, db_eqv a b -> sim (bpop_scan l a keys) (bpop_scan l b keys).
+(* one polling round *)
+Lemma sim_bpop_try l keys : forall a b, db_eqv a b ->
+  match bpop_try l a keys, bpop_try l b keys with
+  | Some (r1, a'), Some (r2, b') => r1 = r2 /\ db_eqv a' b'
+  | None, None => True
+  | _, _ => False
+  end.
 Proof.
-  induction keys as [|k r IH]; intros a b H; cbn; [apply sim_intro; exact H|].
-  rewrite (eqv_get_list a b k H).
-  repeat break_match; sim_leaf; try (apply IH; exact H).
+  induction keys as [|k r IH]; intros a b H; cbn; [exact I|].
+  rewrite (eqv_get_list a b k H). specialize (IH a b H).
+  destruct (get_list b k) as [| |l0]; [exact IH|split; [reflexivity|exact H]|].
+  destruct l; [destruct l0 as [|x l']|destruct (rev l0) as [|x l']]; try exact IH;
+    (split; [reflexivity|apply eqv_put_list; exact H]).
+Qed.
+
+(* two runs of [iter_until] whose step functions are related stay related *)
+Lemma iter_until_rel {X1 X2 Y1 Y2 : Type} (RX : X1 -> X2 -> Prop) (RY : Y1 -> Y2 -> Prop)
+      (f1 : X1 -> Y1 + X1) (f2 : X2 -> Y2 + X2) :
+  (forall x1 x2, RX x1 x2 ->
+     match f1 x1, f2 x2 with
+     | inl y1, inl y2 => RY y1 y2 | inr a, inr b => RX a b | _, _ => False end) ->
+  forall p x1 x2, RX x1 x2 ->
+     match iter_until p f1 x1, iter_until p f2 x2 with
+     | inl y1, inl y2 => RY y1 y2 | inr a, inr b => RX a b | _, _ => False end.
+Proof.
+  intros Hf. induction p as [q IH|q IH|]; intros x1 x2 Hx; cbn.
+  - pose proof (Hf x1 x2 Hx) as H0.
+    destruct (f1 x1) as [y1|a], (f2 x2) as [y2|b]; try contradiction; [exact H0|].
+    pose proof (IH a b H0) as H1.
+    destruct (iter_until q f1 a) as [y1|a'], (iter_until q f2 b) as [y2|b']; try contradiction;
+      [exact H1|]. apply IH. exact H1.
+  - pose proof (IH x1 x2 Hx) as H1.
+    destruct (iter_until q f1 x1) as [y1|a'], (iter_until q f2 x2) as [y2|b']; try contradiction;
+      [exact H1|]. apply IH. exact H1.
+  - apply Hf. exact Hx.
+Qed.
+
+(* a blocked pop with no other connection acting: the database only changes by its own pop *)
+Notation bst_db := (@bst db unit).
+Definition bst_rel (x y : bst_db) : Prop :=
+  b_tick x = b_tick y /\ b_evs x = [] /\ b_evs y = [] /\
+  db_wf (b_s x) /\ db_wf (b_s y) /\ db_eqv (b_s x) (b_s y).
+Definition bres_rel (x y : reply * bst_db) : Prop :=
+  fst x = fst y /\ db_eqv (b_s (snd x)) (b_s (snd y)).
+
+Lemma btick_rel l keys t0 x y : bst_rel x y ->
+  match btick (bpop_poll l keys) t0 x, btick (bpop_poll l keys) t0 y with
+  | inl r1, inl r2 => bres_rel r1 r2 | inr a, inr b => bst_rel a b | _, _ => False end.
+Proof.
+  intros (Ht & E1 & E2 & W1 & W2 & H). unfold btick. rewrite E1, E2, Ht. cbn [run_due].
+  unfold bpop_poll.
+  pose proof (sim_bpop_try l keys _ _ (eqv_purge _ _ ((t0 + 100 * (b_tick y + 1)) / 1000) W1 W2 H)) as S.
+  destruct (bpop_try l (purge (b_s x) ((t0 + 100 * (b_tick y + 1)) / 1000)) keys) as [[r1 a']|],
+           (bpop_try l (purge (b_s y) ((t0 + 100 * (b_tick y + 1)) / 1000)) keys) as [[r2 b']|];
+    try contradiction.
+  - destruct S as [Er Ed]. split; assumption.
+  - unfold bst_rel. cbn. split; [reflexivity|]. split; [reflexivity|]. split; [reflexivity|].
+    split; [exact W1|]. split; [exact W2|exact H].
 Qed.
 
 Lemma sim_bpop l a b nowms args : db_wf a -> db_wf b -> db_eqv a b ->
   sim (exec_bpop l a nowms args) (exec_bpop l b nowms args).
 Proof.
-  intros Wa Wb H. unfold exec_bpop. repeat break_match; sim_leaf.
-  apply sim_bpop_scan. apply eqv_purge; assumption.
+  intros Wa Wb H. unfold exec_bpop, bpop_run.
+  destruct (bpop_parse args) as [[keys t]|]; [|apply sim_intro; exact H].
+  unfold block, block_n.
+  assert (R0 : bst_rel (mkBst 0 [] a []) (mkBst 0 [] b [])).
+  { unfold bst_rel. cbn. split; [reflexivity|]. split; [reflexivity|]. split; [reflexivity|].
+    split; [exact Wa|]. split; [exact Wb|exact H]. }
+  pose proof (iter_until_rel bst_rel bres_rel _ _ (fun x y => btick_rel l keys nowms x y)
+                (block_ticks t) _ _ R0) as S.
+  revert S.
+  destruct (iter_until (block_ticks t) (btick (bpop_poll l keys) nowms) (mkBst 0 [] a []))
+    as [[r1 st1]|st1],
+           (iter_until (block_ticks t) (btick (bpop_poll l keys) nowms) (mkBst 0 [] b []))
+    as [[r2 st2]|st2]; intros S; cbv beta iota in S; try contradiction.
+  - unfold bres_rel in S. destruct S as [Er Ed]. cbn in Er, Ed |- *. subst. apply sim_intro. exact Ed.
+  - unfold bst_rel in S. destruct S as (_ & E1 & E2 & _ & _ & Ed). rewrite E1, E2. cbn. apply sim_intro. exact Ed.
+Qed.
+
+(* what a blocked pop with no other connection acting can end with: nothing changed (parse error
+   or timer), or the result of one polling round at tick i *)
+Section Quiet.
+  Variables (l : bool) (keys : list bytes) (t0 : Z) (d : db).
+  Definition quiet (n : Z) (st : bst_db) : Prop :=
+    b_tick st = n /\ b_evs st = [] /\ b_s st = d.
+
+  Lemma iter_quiet p : forall n st, quiet n st ->
+    match iter_until p (btick (bpop_poll l keys) t0) st with
+    | inl (r, st') => exists i, n < i <= n + Zpos p /\
+                                bpop_try l (purge d ((t0 + 100 * i) / 1000)) keys = Some (r, b_s st')
+    | inr st' => quiet (n + Zpos p) st'
+    end.
+  Proof.
+    assert (Step : forall n st, quiet n st ->
+      match btick (bpop_poll l keys) t0 st with
+      | inl (r, st') => bpop_try l (purge d ((t0 + 100 * (n + 1)) / 1000)) keys = Some (r, b_s st')
+      | inr st' => quiet (n + 1) st'
+      end).
+    { intros n st (Ht & Ee & Es). unfold btick. rewrite Ee, Ht, Es. cbn [run_due]. unfold bpop_poll.
+      destruct (bpop_try l (purge d ((t0 + 100 * (n + 1)) / 1000)) keys) as [[r d']|];
+        [reflexivity|repeat split; reflexivity]. }
+    induction p as [q IH|q IH|]; intros n st Q; cbn.
+    - pose proof (Step n st Q) as S0.
+      destruct (btick (bpop_poll l keys) t0 st) as [[r st']|st0].
+      + exists (n + 1). split; [lia|exact S0].
+      + pose proof (IH (n + 1) st0 S0) as S1.
+        destruct (iter_until q (btick (bpop_poll l keys) t0) st0) as [[r st']|st1].
+        * destruct S1 as [i [Hi E]]. exists i. split; [lia|exact E].
+        * pose proof (IH (n + 1 + Zpos q) st1 S1) as S2.
+          destruct (iter_until q (btick (bpop_poll l keys) t0) st1) as [[r st']|st2].
+          -- destruct S2 as [i [Hi E]]. exists i. split; [lia|exact E].
+          -- replace (n + Zpos q~1) with (n + 1 + Zpos q + Zpos q) by lia. exact S2.
+    - pose proof (IH n st Q) as S1.
+      destruct (iter_until q (btick (bpop_poll l keys) t0) st) as [[r st']|st1].
+      + destruct S1 as [i [Hi E]]. exists i. split; [lia|exact E].
+      + pose proof (IH (n + Zpos q) st1 S1) as S2.
+        destruct (iter_until q (btick (bpop_poll l keys) t0) st1) as [[r st']|st2].
+        * destruct S2 as [i [Hi E]]. exists i. split; [lia|exact E].
+        * replace (n + Zpos q~0) with (n + Zpos q + Zpos q) by lia. exact S2.
+    - pose proof (Step n st Q) as S0.
+      destruct (btick (bpop_poll l keys) t0 st) as [[r st']|st0]; [|exact S0].
+      exists (n + 1). split; [lia|exact S0].
+  Qed.
+End Quiet.
+
+Lemma block_ticks_bound t : 0 <= t -> 100 * Zpos (block_ticks t) <= block_timer_ms t.
+Proof.
+  intros L. unfold block_ticks, block_timer_ms. destruct (Z.eqb_spec t 0) as [->|N]; [lia|].
+  rewrite Z2Pos.id by lia. lia.
+Qed.
+
+Lemma bpop_parse_nonneg args keys t : bpop_parse args = Some (keys, t) ->
+  0 <= t /\ incl keys (tl args).
+Proof.
+  unfold bpop_parse. destruct args as [|c rest]; [discriminate|].
+  destruct rest as [|x [|y r]]; try discriminate.
+  destruct (atoi64 (last (x :: y :: r) [])) as [t'|]; [|discriminate].
+  destruct ((t' <? 0) || (t' >? 9223372036)) eqn:Bd; [discriminate|].
+  intros E. injection E as <- <-. apply orb_false_iff in Bd as [Bd _]. apply Z.ltb_ge in Bd.
+  split; [exact Bd|]. cbn [tl]. intros z Hz.
+  assert (G : forall (A : Type) (m : list A) (u : A), In u (removelast m) -> In u m).
+  { intros A m. induction m as [|h m' IHm]; intros u Hu; [exact Hu|].
+    destruct m' as [|h' m'']; [destruct Hu|].
+    change (removelast (h :: h' :: m'')) with (h :: removelast (h' :: m'')) in Hu.
+    destruct Hu as [->|Hu]; [left; reflexivity|right; apply IHm; exact Hu]. }
+  apply G. exact Hz.
+Qed.
+
+(* the database after BLPOP/BRPOP: unchanged, or one polling round on the database purged at a
+   tick instant that is not later than the timer *)
+Lemma exec_bpop_cases l d nowms args :
+  snd (exec_bpop l d nowms args) = d \/
+  exists keys t i r, bpop_parse args = Some (keys, t) /\ 0 < i /\
+    (nowms + 100 * i) / 1000 <= (nowms + block_timer_ms t) / 1000 /\
+    bpop_try l (purge d ((nowms + 100 * i) / 1000)) keys = Some (r, snd (exec_bpop l d nowms args)).
+Proof.
+  unfold exec_bpop, bpop_run. destruct (bpop_parse args) as [[keys t]|] eqn:P; [|left; reflexivity].
+  destruct (bpop_parse_nonneg args keys t P) as [Lt _].
+  unfold block, block_n.
+  pose proof (iter_quiet l keys nowms d (block_ticks t) 0 (mkBst 0 [] d [])) as Q.
+  revert Q.
+  destruct (iter_until (block_ticks t) (btick (bpop_poll l keys) nowms) (mkBst 0 [] d []))
+    as [[r st']|st']; intros Q; cbv beta iota in Q.
+  - destruct Q as [i [Hi E]]; [repeat split; reflexivity|].
+    right. exists keys, t, i, r. split; [reflexivity|]. split; [lia|]. split; [|exact E].
+    pose proof (block_ticks_bound t Lt). apply Z.div_le_mono; lia.
+  - destruct Q as (_ & Ee & Es); [repeat split; reflexivity|]. left. rewrite Ee, Es. reflexivity.
 Qed.
 
 (* ---- dispatch ---- *)
@@ -458,11 +634,33 @@ Proof.
     + apply IH; assumption.
 Qed.
 
+Ltac family_sim_tac disp :=
+  let a := fresh "a" in let b := fresh "b" in let n := fresh "n" in
+  let Wa := fresh "Wa" in let Wb := fresh "Wb" in let H := fresh "H" in
+  intros a b ? ? n ? ? Wa Wb H; unfold disp;
+  repeat match goal with
+  | |- context [if is n ?c then _ else _] =>
+    let E := fresh "E" in
+    destruct (is n c) eqn:E;
+    [ apply bytes_eqb_eq in E; subst n; cbn [osimk]; apply sim_simk; [reflexivity|];
+      match goal with |- sim ?x _ => unfold_exec x end; sim_auto
+    | clear E ]
+  end; exact I.
+
+Lemma sim_hashes : family_sim hashes_dispatch.
+Proof. family_sim_tac hashes_dispatch. Qed.
+Lemma sim_zsets : family_sim zsets_dispatch.
+Proof. family_sim_tac zsets_dispatch. Qed.
+
+(* one [Forall_cons] per family of [Exec.families] *)
 Lemma families_sim : Forall family_sim families.
 Proof.
-  unfold families. repeat constructor.
-  - intros a b now nowms n args hint. apply sim_strings.
-  - intros a b now nowms n args hint. apply sim_lists.
+  unfold families.
+  apply Forall_cons; [intros a b now nowms n args hint; apply sim_strings|].
+  apply Forall_cons; [intros a b now nowms n args hint; apply sim_lists|].
+  apply Forall_cons; [apply sim_hashes|].
+  apply Forall_cons; [apply sim_zsets|].
+  apply Forall_nil.
 Qed.
 
 (* Every command respects observational equivalence. *)
@@ -672,36 +870,50 @@ Proof. unfold exec_lpos. upd_auto. Qed.
 Lemma upd_exec_lmove T d args : upd (tl args) T d (snd (exec_lmove d args)).
 Proof. unfold exec_lmove. cbv beta zeta. upd_auto. Qed.
 
-Lemma upd_bpop_scan l K T d keys : forall d1, incl keys K -> upd K T d d1 ->
-  upd K T d (snd (bpop_scan l d1 keys)).
+Definition blocking_name (n : bytes) : bool := is n (B "blpop") || is n (B "brpop").
+(* the latest clock second a blocked pop can look at: the second of its timer *)
+Definition poll_bound (nowms : Z) (args : list bytes) : Z :=
+  match bpop_parse args with
+  | Some (_, t) => (nowms + block_timer_ms t) / 1000
+  | None => nowms / 1000
+  end.
+
+Lemma upd_bpop_try l K T d keys : forall d1 r d2, incl keys K -> upd K T d d1 ->
+  bpop_try l d1 keys = Some (r, d2) -> upd K T d d2.
 Proof.
-  induction keys as [|k r IH]; intros d1 I U; cbn; [exact U|].
+  induction keys as [|k rr IH]; intros d1 r d2 I U E; cbn in E; [discriminate|].
   assert (Ik : In k K) by (apply I; left; reflexivity).
-  assert (Ir : incl r K) by (intros x Hx; apply I; right; exact Hx).
-  repeat break_match; cbn [snd]; try (apply IH; assumption); try exact U;
-    apply upd_put_list; assumption.
+  assert (Ir : incl rr K) by (intros x Hx; apply I; right; exact Hx).
+  destruct (get_list d1 k) as [| |l0]; [eapply IH; eassumption|injection E as _ <-; exact U|].
+  destruct l; [destruct l0 as [|x l']|destruct (rev l0) as [|x l']];
+    try (eapply IH; eassumption); injection E as _ <-; apply upd_put_list; assumption.
 Qed.
 
-Lemma incl_removelast {A} (l : list A) : incl (removelast l) l.
-Proof.
-  induction l as [|x r IH]; [intros y []|]. destruct r as [|y r']; [intros z []|].
-  change (removelast (x :: y :: r')) with (x :: removelast (y :: r')).
-  intros z [->|Hz]; [left; reflexivity|right; apply IH; exact Hz].
-Qed.
-
-Lemma upd_exec_bpop l T d nowms args : (nowms + 100) / 1000 <= T ->
+Lemma upd_exec_bpop l T d nowms args : poll_bound nowms args <= T ->
   upd (tl args) T d (snd (exec_bpop l d nowms args)).
 Proof.
-  intros L. unfold exec_bpop. destruct args as [|c rest]; [apply upd_refl|].
-  repeat break_match; try apply upd_refl.
-  apply upd_bpop_scan; [apply incl_removelast|apply upd_purge; [apply upd_refl|exact L]].
+  intros L. destruct (exec_bpop_cases l d nowms args) as [->|(keys & t & i & r & P & Hi & Bd & E)];
+    [apply upd_refl|].
+  unfold poll_bound in L. rewrite P in L.
+  eapply upd_bpop_try; [exact (proj2 (bpop_parse_nonneg args keys t P))| |exact E].
+  apply upd_purge; [apply upd_refl|lia].
 Qed.
 
+(* [T] bounds the clock seconds at which the command may purge: only a blocking pop looks at the
+   clock later than its start *)
 Definition family_upd (f : family) : Prop :=
-  forall d now nowms n args hint T r d', (nowms + 100) / 1000 <= T ->
+  forall d now nowms n args hint T r d',
+    (blocking_name n = true -> poll_bound nowms args <= T) ->
     f d now nowms n args hint = Some (r, d') -> upd (tl args) T d d'.
 
-Ltac snd_of H := match type of H with ?x = (_, ?d') => change d' with (snd (x)) end.
+Ltac family_upd_tac disp :=
+  let n := fresh "n" in let d' := fresh "d'" in let E := fresh "E" in
+  intros ? ? ? n ? ? ? ? d' _; unfold disp;
+  repeat match goal with
+  | |- context [if is n ?c then _ else _] => destruct (is n c)
+  end; intros E; try discriminate; injection E as E;
+  apply (f_equal snd) in E; cbn [snd] in E; subst d';
+  match goal with |- upd _ _ _ (snd ?x) => unfold_exec x end; upd_auto.
 
 Lemma upd_strings : family_upd strings_dispatch.
 Proof.
@@ -722,22 +934,34 @@ Lemma upd_lists : family_upd lists_dispatch.
 Proof.
   intros d now nowms n args hint T r d' L. unfold lists_dispatch.
   repeat match goal with
-  | |- context [if is n ?c then _ else _] => destruct (is n c)
+  | |- context [if is n ?c then _ else _] =>
+    let Q := fresh "Q" in
+    destruct (is n c) eqn:Q; [apply bytes_eqb_eq in Q; subst n|clear Q]
   end; intros E; try discriminate; injection E as E;
   apply (f_equal snd) in E; cbn [snd] in E; subst d';
   first [ apply upd_exec_llen | apply upd_exec_lindex | apply upd_exec_lpos | apply upd_pop
         | apply upd_push | apply upd_exec_lset | apply upd_exec_lrem | apply upd_exec_ltrim
-        | apply upd_exec_lrange | apply upd_exec_lmove | apply upd_exec_bpop; exact L ].
+        | apply upd_exec_lrange | apply upd_exec_lmove | apply upd_exec_bpop; apply L; reflexivity ].
 Qed.
 
+Lemma upd_hashes : family_upd hashes_dispatch.
+Proof. family_upd_tac hashes_dispatch. Qed.
+Lemma upd_zsets : family_upd zsets_dispatch.
+Proof. family_upd_tac zsets_dispatch. Qed.
+
+(* one [Forall_cons] per family of [Exec.families] *)
 Lemma families_upd : Forall family_upd families.
 Proof.
-  unfold families. apply Forall_cons; [apply upd_strings|].
-  apply Forall_cons; [apply upd_lists|apply Forall_nil].
+  unfold families.
+  apply Forall_cons; [apply upd_strings|].
+  apply Forall_cons; [apply upd_lists|].
+  apply Forall_cons; [apply upd_hashes|].
+  apply Forall_cons; [apply upd_zsets|].
+  apply Forall_nil.
 Qed.
 
 Lemma upd_dispatch fs : Forall family_upd fs ->
-  forall d now nowms n args hint T, (nowms + 100) / 1000 <= T ->
+  forall d now nowms n args hint T, (blocking_name n = true -> poll_bound nowms args <= T) ->
     upd (tl args) T d (snd (dispatch fs d now nowms n args hint)).
 Proof.
   induction 1 as [|f r Hf Hr IH]; intros d now nowms n args hint T L; cbn; [apply upd_refl|].
@@ -745,36 +969,41 @@ Proof.
   cbn [snd]. eapply Hf; eassumption.
 Qed.
 
-Theorem exec_cmd_upd d now nowms args hint T : (nowms + 100) / 1000 <= T ->
+Theorem exec_cmd_upd d now nowms args hint T :
+  (blocking_name (cmd_name args) = true -> poll_bound nowms args <= T) ->
   upd (tl args) T d (snd (exec_cmd d now nowms args hint)).
 Proof.
   intros L. unfold exec_cmd. destruct args as [|n r]; [apply upd_refl|].
   apply upd_dispatch; [apply families_upd|exact L].
 Qed.
 
-Theorem exec_upd d now nowms args hint T : now <= T -> (nowms + 100) / 1000 <= T ->
+(* the last clock second a step looks at: its own, except that BLPOP/BRPOP poll every 100 ms
+   until their timer fires *)
+Definition step_end (now nowms : Z) (args : list bytes) : Z :=
+  if blocking_name (cmd_name args) then Z.max now (poll_bound nowms args) else now.
+
+Theorem exec_upd d now nowms args hint T : step_end now nowms args <= T ->
   upd (tl args) T d (snd (exec d now nowms args hint)).
 Proof.
-  intros L1 L2. unfold exec. eapply upd_trans; [apply upd_purge; [apply upd_refl|exact L1]|].
-  apply exec_cmd_upd; exact L2.
+  intros L. unfold step_end in L. unfold exec.
+  eapply upd_trans; [apply upd_purge; [apply upd_refl|]|apply exec_cmd_upd].
+  - destruct (blocking_name (cmd_name args)); lia.
+  - intros Bn. rewrite Bn in L. lia.
 Qed.
 
 (* well-formedness is an invariant of every step *)
 Theorem exec_wf d now nowms args hint : db_wf d -> db_wf (snd (exec d now nowms args hint)).
 Proof.
   intros W. eapply upd_wf; [exact W|].
-  apply (exec_upd d now nowms args hint (Z.max now ((nowms + 100) / 1000))); lia.
+  apply (exec_upd d now nowms args hint (step_end now nowms args)). apply Z.le_refl.
 Qed.
 
-(* the instant at which a step has finished looking at the clock: BLPOP/BRPOP poll 100 ms later *)
-Definition step_end (now nowms : Z) : Z := Z.max now ((nowms + 100) / 1000).
-
 Theorem exec_frame d now nowms args hint k t : db_wf d -> ~ In k (tl args) ->
-  step_end now nowms <= t ->
+  step_end now nowms args <= t ->
   view (snd (exec d now nowms args hint)) t k = view d t k.
 Proof.
-  intros W N L. unfold step_end in L. eapply upd_frame; [exact W| |exact N|apply Z.le_refl].
-  apply exec_upd; lia.
+  intros W N L. eapply upd_frame; [exact W| |exact N|apply Z.le_refl].
+  apply exec_upd; exact L.
 Qed.
 
 Theorem exec_frame_persistent d now nowms args hint k v : db_wf d -> ~ In k (tl args) ->
@@ -782,7 +1011,7 @@ Theorem exec_frame_persistent d now nowms args hint k v : db_wf d -> ~ In k (tl 
   raw_view (snd (exec d now nowms args hint)) k = Some (v, None).
 Proof.
   intros W N R. eapply upd_frame_persistent; [exact W| |exact N|exact R].
-  apply (exec_upd d now nowms args hint (step_end now nowms)); unfold step_end; lia.
+  apply (exec_upd d now nowms args hint (step_end now nowms args)). apply Z.le_refl.
 Qed.
 
 (* ================================================================== programs *)
@@ -827,7 +1056,7 @@ Qed.
    not earlier than the end of every step *)
 Theorem run_frame p k t : forall d, db_wf d ->
   Forall (fun s => ~ names_key k s) p ->
-  Forall (fun s => step_end (s_now s) (s_nowms s) <= t) p ->
+  Forall (fun s => step_end (s_now s) (s_nowms s) (s_args s) <= t) p ->
   view (snd (run d p)) t k = view d t k.
 Proof.
   induction p as [|s r IH]; intros d W N L; [reflexivity|].
@@ -1013,17 +1242,20 @@ Qed.
 Lemma get_list_found_get d k l : get_list d k = LFound l -> db_get d k <> None.
 Proof. unfold get_list. destruct (db_get d k); [discriminate|intros; discriminate]. Qed.
 
-Lemma keep_bpop_scan l d keys : forall d1, ttl_keep d d1 -> ttl_keep d (snd (bpop_scan l d1 keys)).
+Lemma keep_bpop_try l d keys : forall d1 r d2, ttl_keep d d1 ->
+  bpop_try l d1 keys = Some (r, d2) -> ttl_keep d d2.
 Proof.
-  induction keys as [|k r IH]; intros d1 H; cbn; [exact H|].
-  destruct (get_list d1 k) eqn:G; try (apply IH; exact H); try exact H.
+  induction keys as [|k rr IH]; intros d1 r d2 H E; cbn in E; [discriminate|].
+  destruct (get_list d1 k) as [| |l0] eqn:G; [eapply IH; eassumption|injection E as _ <-; exact H|].
   pose proof (get_list_found_get _ _ _ G) as NG.
-  repeat break_match; cbn [snd]; try (apply IH; exact H); apply keep_put_list_after; assumption.
+  destruct l; [destruct l0 as [|x l']|destruct (rev l0) as [|x l']];
+    try (eapply IH; eassumption); injection E as _ <-; apply keep_put_list_after; assumption.
 Qed.
 Lemma keep_bpop l d nowms args : db_wf d -> ttl_keep d (snd (exec_bpop l d nowms args)).
 Proof.
-  intros W. unfold exec_bpop. repeat break_match; try apply keep_refl.
-  apply keep_bpop_scan. apply keep_purge. exact W.
+  intros W. destruct (exec_bpop_cases l d nowms args) as [->|(keys & t & i & r & P & Hi & Bd & E)];
+    [apply keep_refl|].
+  eapply keep_bpop_try; [|exact E]. apply keep_purge. exact W.
 Qed.
 
 (* the commands that may install, replace or remove a deadline *)
@@ -1063,10 +1295,31 @@ Proof.
         | apply keep_lrange | apply keep_exec_lmove | apply keep_bpop; exact W ].
 Qed.
 
+Ltac family_keep_tac disp :=
+  let n := fresh "n" in let d' := fresh "d'" in let E := fresh "E" in let C := fresh "C" in
+  intros ? ? ? n ? ? ? d' _ C; unfold disp;
+  repeat match goal with
+  | |- context [if is n ?c then _ else _] =>
+    let Q := fresh "Q" in
+    destruct (is n c) eqn:Q; [apply bytes_eqb_eq in Q; subst n; try discriminate C|clear Q]
+  end; intros E; try discriminate; injection E as E;
+  apply (f_equal snd) in E; cbn [snd] in E; subst d';
+  match goal with |- ttl_keep _ (snd ?x) => unfold_exec x end; keep_auto.
+
+Lemma keep_hashes : family_keep hashes_dispatch.
+Proof. family_keep_tac hashes_dispatch. Qed.
+Lemma keep_zsets : family_keep zsets_dispatch.
+Proof. family_keep_tac zsets_dispatch. Qed.
+
+(* one [Forall_cons] per family of [Exec.families] *)
 Lemma families_keep : Forall family_keep families.
 Proof.
-  unfold families. apply Forall_cons; [apply keep_strings|].
-  apply Forall_cons; [apply keep_lists|apply Forall_nil].
+  unfold families.
+  apply Forall_cons; [apply keep_strings|].
+  apply Forall_cons; [apply keep_lists|].
+  apply Forall_cons; [apply keep_hashes|].
+  apply Forall_cons; [apply keep_zsets|].
+  apply Forall_nil.
 Qed.
 
 Lemma keep_dispatch fs : Forall family_keep fs ->
@@ -1487,8 +1740,8 @@ Lemma exec_ttl_none d s k : db_wf d -> leaves_deadlines k s -> db_ttl d k = None
 Proof.
   intros W [N|C] E.
   - eapply upd_ttl_none; [exact W| |exact N|exact E].
-    apply (exec_upd d (s_now s) (s_nowms s) (s_args s) (s_hint s) (step_end (s_now s) (s_nowms s)));
-      unfold step_end; lia.
+    apply (exec_upd d (s_now s) (s_nowms s) (s_args s) (s_hint s) (step_end (s_now s) (s_nowms s) (s_args s))).
+    apply Z.le_refl.
   - set (d' := snd (exec d (s_now s) (s_nowms s) (s_args s) (s_hint s))).
     destruct (db_get d' k) as [v'|] eqn:G.
     + assert (R : raw_view d' k = Some (v', db_ttl d' k)) by (unfold raw_view; rewrite G; reflexivity).
@@ -1542,7 +1795,7 @@ Qed.
 (* ... and while no command names k, it stays invisible *)
 Theorem run_expired_stays_invisible d k t p now : db_wf d -> db_ttl d k = Some t ->
   Forall (fun s => ~ names_key k s) p ->
-  Forall (fun s => step_end (s_now s) (s_nowms s) <= now) p -> t <= now ->
+  Forall (fun s => step_end (s_now s) (s_nowms s) (s_args s) <= now) p -> t <= now ->
   view (snd (run d p)) now k = None.
 Proof.
   intros W E N L Lt. rewrite (run_frame p k now d W N L). eapply view_dead; eassumption.
